@@ -202,6 +202,49 @@ contract(f"{META}::_HeterogenousMetaEstimator._set_params", "C04", cases=SP_CASE
          notes=["BaseEstimator.set_params/get_params are sklearn's (0.24 semantics, modelled from the documented algorithm)"])
 
 
+# the column ensemble keeps (name, estimator, column) triples and exposes (name, estimator) pairs through a PROPERTY with a
+# setter: replacement by name has to go through that setter (an in-place edit of the derived list is lost)
+CE = "sktime/classification/compose/_column_ensemble.py"
+
+
+def _ce_inputs(B, case):
+    from pyvc.values import SDict
+    I = B.I
+    ok, cls = I.mod_global(I.src.module("sktime.classification.compose._column_ensemble"), "ColumnEnsembleClassifier")
+    ms = [_member(B, "c0"), _member(B, "c1")]
+    cols = [B.opaque("col0"), B.opaque("col1")]
+    lst = SList([SList(["e0", ms[0], cols[0]], "tuple"), SList(["e1", ms[1], cols[1]], "tuple")], "list")
+    obj = I.instantiate(cls, [lst], {})
+    repl = _member(B, "replacement")
+    val = B.opaque("value")
+    params = {"replace-by-name": {"e1": repl}, "nested": {"e0__a": val}, "unknown": {"nonexistent": val}}[case]
+    obj.ghost = {"ms": ms, "cols": cols, "repl": repl, "val": val, "case": case}
+    return {"self": obj, "attr": "_estimators", "params": SDict(params)}
+
+
+def _ce_post(A, r):
+    s = A.self
+    g = s.ghost
+    cur = s.attrs["estimators"]
+    if not isinstance(cur, SList) or len(cur.items) != 2:
+        return False
+    t = [x.items for x in cur.items]
+    ms, cols = g["ms"], g["cols"]
+    same_cols = t[0][0] == "e0" and t[1][0] == "e1" and t[0][2] is cols[0] and t[1][2] is cols[1]
+    if g["case"] == "replace-by-name":
+        return same_cols and t[0][1] is ms[0] and t[1][1] is g["repl"]
+    if g["case"] == "nested":
+        sp = calls(ms[0], "set_params")
+        return same_cols and len(sp) == 1 and sp[0].kwargs.get("a") is g["val"] and t[0][1] is ms[0] and t[1][1] is ms[1]
+    return False
+
+
+contract(f"{META}::_HeterogenousMetaEstimator._set_params#column-ensemble", "C04", cases=["replace-by-name", "nested", "unknown"],
+         inputs=_ce_inputs, raises=[("ValueError", lambda A: A.self.ghost["case"] == "unknown")],
+         ensures=[("replacement-by-name-reaches-the-stored-triples-through-the-property-setter", _ce_post)],
+         notes=["receiver is a ColumnEnsembleClassifier: `_estimators` is a property deriving (name, estimator) pairs from the stored triples"])
+
+
 def _gp_post(A, r):
     """get_params(deep=True): constructor parameters, each component under its name, each component parameter under name__key"""
     from pyvc.values import SDict
